@@ -322,7 +322,7 @@ class Ctx:
     # ---------------- TLC ----------------
     def mc(self, module, cfg, name=None, expect_ok=True, **kw):
         """Exhaustive model checking; any violated property of the Spec is a finding."""
-        if os.environ.get("VERIF_SKIP_MC"):     # mutant sweeps only: the Spec is unchanged, skip its MC run
+        if os.environ.get("VERIF_SKIP_MC") and not kw.get("dump"):     # mutant sweeps only: the Spec is unchanged, skip its MC run
             r = TLCResult(); r.ok = r.completed = True; r.states = r.transitions = 1
             self.notes.append("MC skipped (VERIF_SKIP_MC)")
             return r
